@@ -83,6 +83,46 @@ CHECKS["C08"] = dict(
          "(grid limits, select_box snapping).",
     technique="Lean 4 proof over linear orders + exhaustive model enumeration of the real CNF + constraint-set correspondence", design="§7 C08")
 
+CHECKS["C17"] = dict(
+    text="Partial with respect to floating point, by nature. Machine-checked (Lean 4, Mathlib real analysis): over the reals the "
+         "repaired disc-overlap function never fails, is symmetric, lies in [0, pi*min(r)^2], equals the closed-form lens area between "
+         "the tangencies, 0 when far apart and the smaller disc when nested; the guard really puts both acos arguments in [-1,1] "
+         "(stated explicitly because Mathlib's arccos is total by clamping). For EVERY rounding behaviour (any linearly ordered carrier "
+         "with arbitrary arithmetic) acos only ever receives a clamped argument, the only possible error is a zero divisor and the "
+         "result lies in [0, small]. Binary64 totality, symmetry, bounds and the 1e-5*r^2 accuracy are decided by directed search "
+         "(both tangencies within +-8 ulp, equal / concentric discs, scales 1e-6..1e6) against 60-digit mpmath; the Float model agrees "
+         "with the Python bit for bit.",
+    note="libm (sqrt, acos, sin) executed, not proved; NaN/inf/underflow outside the property; float accuracy is searched, not proved; "
+         "the code was repaired first (fix: clamp), the model follows the repaired code.",
+    technique="Lean 4 real-analysis proof + structural totality proof for all roundings + bit-exact model correspondence + directed float search",
+    design="§7 C17")
+CHECKS["C09"] = dict(
+    text="Machine-checked (Lean 4, over the reals, slack 0, positive sizes, ratio limit >= 1): each equation group the legaliser "
+         "generates is equivalent to its geometric clause (bounds, aspect ratio, attachment within the trunk's extent, original order "
+         "along each side, area, hard congruence / fixed position) and the smooth-max no-overlap equation holds iff the rectangles are "
+         "separated or overlap by at most the documented smoothing tolerance; assembled: AllEquationsHold -> Legal_tau, "
+         "Legal_0 -> AllEquationsHold, and the input configuration of a legal floorplan satisfies the system. Tied to the code on every "
+         "run without solving: every Equation of the real Model is compared with the Lean generator node for node (constants bit-equal), "
+         "evaluate()/is_equation_met() compared at Float, and an independent exact Legal oracle classifies legal configurations and "
+         "configurations violating exactly one clause by a clear margin against is_equation_met of the real Model.",
+    note="GEKKO never runs; variable bounds (lb=0.1) are outside the equations and reported separately; STOG roles taken from the "
+         "repository (C06); the 1e-6 comparison tolerance and double evaluation executed, not proved; code repaired first "
+         "(fix: branch offsets of hard modules).",
+    technique="Lean 4 proof over the reals + node-for-node structural correspondence of the generated constraint system + oracle-classified configurations",
+    design="§7 C09")
+CHECKS["C15"] = dict(
+    text="Machine-checked (Lean 4) for ALL well-formed 0/1 grids, soundness AND completeness: the is_strop verdict of the model is "
+         "exactly 'a single-trunk decomposition exists'; every offered instance has an all-ones trunk rectangle, branches abutting it "
+         "on their filed side within its extent, and trunk + branches cover each 1-cell exactly once and no 0-cell; the in-place pruning "
+         "passes are characterised exactly; rectangles mapped through coordinate lists have the cells' total area. Tied to the code: "
+         "quick tier all grids up to 4x4 + random grids up to 8x8 + vertex lists; thorough tier all 2.24M grids up to 4x5 and 5x4 "
+         "through implementation, model and a brute-force oracle; vertex-list decompositions checked against the shoelace area and "
+         "create_stog recognition with the trunk first.",
+    note="Even-odd point-in-polygon correctness for arbitrary vertex lists is NOT proved (correspondence + shoelace only); create_stog "
+         "exercised on the implementation (its model is C06); instance order / the instance picked by strop_decomposition come from a set "
+         "iteration, the model is relational there.",
+    technique="Lean 4 soundness and completeness proof + exhaustive small-grid differential run + brute-force oracle", design="§7 C15")
+
 NOT_APPLICABLE = {}
 
 def main():
